@@ -399,3 +399,15 @@ def run (c : Cfg) (eager : Bool) (cancelAtClock : Option Nat) : Nat → Nat → 
             | none => s
 
 end SxVerif.Engine
+
+namespace SxVerif.Engine
+
+/-- run an explicit schedule (list of labels); `none` if some label is not enabled -/
+def exec (c : Cfg) : Sys → List Label → Option Sys
+  | s, [] => some s
+  | s, l :: ls =>
+    match next c s l with
+    | some s' => exec c s' ls
+    | none => none
+
+end SxVerif.Engine
